@@ -123,6 +123,8 @@ def run(ctx):
             yield G.rule_directed(rng)
         for _ in range(n2):
             yield G.random_tree(rng)
+        for _ in range(n1 // 3):
+            yield G.near_miss(rng)
 
     def check_ast(origin, a):
         nonlocal found
